@@ -84,7 +84,8 @@ def allocation(run, f):
                         users.add(bd.name)
         run.require(users == {hb.name}, "O11.1", "counter-private", "the id counter is referenced from %s" % sorted(users), "counter referenced only from %s" % hb.name)
         sd = [s for s in f.statics if s["def"] == static]
-        run.require(len(sd) == 1 and "Atomic" in f.ty(sd[0]["ty"]).s and not sd[0]["mut"], "O11.1", "counter-is-atomic", "the id counter is not an immutable static atomic", "static %s: %s" % (static, f.ty(sd[0]["ty"]).s if sd else "?"))
+        import anchors
+        run.require(len(sd) == 1 and "Atomic" in anchors.peel_newtype(f, f.ty(sd[0]["ty"])).s and not sd[0]["mut"], "O11.1", "counter-is-atomic", "the id counter is not an immutable static atomic", "static %s: %s" % (static, f.ty(sd[0]["ty"]).s if sd else "?"))
     # feeds the one ActorRef built from scratch (private constructors are inlined: the aggregate is in this body)
     tr = tracer_of(b)
     fresh = []
